@@ -159,11 +159,57 @@ Proof.
   apply decode16_char_len, Hu.
 Qed.
 
+
+(* ================================================================== *)
+(* 3b. the ghost encoding U32: every character is one unit *)
+Definition v32 (t : list N) : list (N * nat) := map (fun c => (c, 1)) t.
+
+Lemma positions_v32 p t :
+  map (fun x => (fst (fst x), snd (fst x))) (positions p (v32 t)) = combine (seq p (length t)) t.
+Proof.
+  revert p; induction t as [|c r IH]; intros p; [reflexivity|].
+  cbn [v32 map positions length seq combine fst snd]. f_equal.
+  replace (p + 1) with (S p) by lia. apply IH.
+Qed.
+Lemma positions_v32_il p t :
+  map (fun x => (fst (fst x), snd x)) (positions p (v32 t)) = map (fun i => (i, 1)) (seq p (length t)).
+Proof.
+  revert p; induction t as [|c r IH]; intros p; [reflexivity|].
+  cbn [v32 map positions length seq fst snd]. f_equal.
+  replace (p + 1) with (S p) by lia. apply IH.
+Qed.
+Lemma slen_v32 t : slen (v32 t) = length t.
+Proof. unfold slen, v32. rewrite map_map. cbn [snd]. induction t as [|c r IH]; simpl; [reflexivity | f_equal; exact IH]. Qed.
+
+Lemma view32 t : text_view U32 t (v32 t).
+Proof.
+  unfold text_view. split; [cbn [t_char_indices]; symmetry; apply positions_v32|].
+  split; [cbn [t_indices_lengths]; symmetry; apply positions_v32_il|].
+  split; [cbn [t_chars]; unfold v32; rewrite map_map; cbn [fst]; symmetry; apply map_id|].
+  split; [cbn [t_len]; rewrite total_slen, slen_v32; reflexivity|].
+  unfold v32. apply Forall_forall. intros ch Hin. apply in_map_iff in Hin. destruct Hin as [c [<- _]].
+  cbn [fst snd char_len]. split; [reflexivity|lia].
+Qed.
+
+Lemma subrange32 site t i j :
+  i <= j -> j <= length t ->
+  let lens := map snd (v32 t) in
+  t_subrange site U32 t (total (firstn i lens)) (total (firstn j lens)) = Ok (firstn (j - i) (skipn i t)).
+Proof.
+  intros Hij Hj lens. subst lens.
+  rewrite !total_firstn_slen. unfold v32. rewrite !firstn_map. fold (v32 (firstn i t)) (v32 (firstn j t)).
+  rewrite !slen_v32, !firstn_length, !Nat.min_l by lia.
+  cbn [t_subrange]. unfold slice.
+  destruct ((i <=? j) && (j <=? length t)) eqn:E; [reflexivity|].
+  apply andb_false_iff in E. destruct E as [E|E]; [apply Nat.leb_gt in E|apply Nat.leb_gt in E]; lia.
+Qed.
+
 Theorem view_of_proved : view_of_statement.
 Proof.
-  intros [|] t Hv.
+  intros [| |] t Hv.
   - apply view8.
   - apply view16. exact Hv.
+  - apply view32.
 Qed.
 
 Theorem text_view_exists_proved : text_view_exists_statement.
@@ -315,11 +361,17 @@ Qed.
 
 Theorem subrange_view_proved : subrange_view_statement.
 Proof.
-  intros site [|] t i j Hv Hij Hj.
+  intros site [| |] t i j Hv Hij Hj.
   - cbv zeta. cbn [view_of valid_text].
     exists (firstn (j - i) (skipn i t)).
     split; [apply (subrange8 site t i j Hij)|].
     split; [|exact I].
     rewrite skipn_map, firstn_map. reflexivity.
   - cbv zeta. cbn [view_of valid_text] in *. apply (subrange16 site t i j Hv Hij).
+  - cbv zeta. cbn [view_of valid_text] in *.
+    exists (firstn (j - i) (skipn i t)).
+    fold (v32 t) in *. unfold v32 in Hj. rewrite map_length in Hj.
+    split; [apply (subrange32 site t i j Hij Hj)|].
+    split; [|exact I].
+    unfold v32. rewrite skipn_map, firstn_map. reflexivity.
 Qed.
